@@ -85,13 +85,63 @@ def c15(spec, tier, seed, merged, drv, params, binary):
 
 
 def replay(pid, spec, path, drv):
-    binary = drv.build_mon()
-    cmd = [binary, pid.lower(), "--replay", path]
-    p = subprocess.run(cmd, stdout=subprocess.PIPE, text=True, env=drv.env_offline())
-    print(p.stdout[-4000:])
-    if p.returncode == 1:
+    """re-run the shard command that produced the recorded witness (deterministic: same seed, shard, sizes)
+    against the CURRENT tree and report whether the same signature shows up again"""
+    rp = json.load(open(path))
+    cmd = rp.get("shard_cmd")
+    if not cmd:
+        print("replay file has no shard command (violation found by the driver itself, e.g. a probe-transcript "
+              "difference): re-run ./check %s --tier %s --seed %s" % (pid, rp.get("tier", "quick"), rp.get("seed", 1)))
+        return 2
+    # rebuild whatever the command uses from the current tree
+    exe = cmd[0]
+    try:
+        if "websim" in os.path.basename(exe):
+            drv.build_server()
+            drv.build_websim()
+        elif os.path.basename(exe).startswith("mon-"):
+            tag = os.path.basename(exe)[4:]
+            drv.build_mon(features=[f for f in tag.split("+") if f != "none"], tag=tag)
+        elif exe == "cargo":
+            drv.build_mon_miri()
+        elif "target-asan" in exe or "target-tsan" in exe:
+            drv.build_mon_sanitizer("asan" if "target-asan" in exe else "tsan")
+        else:
+            drv.build_mon()
+        if "--cli" in cmd:
+            cli = cmd[cmd.index("--cli") + 1]
+            tag = os.path.basename(cli).replace("adf-bdd-", "")
+            feats = {"default": None, "variablelist-only": ["variablelist"], "no-adhoccounting": ["variablelist", "frontend"]}.get(tag)
+            drv.build_cli(features=feats, tag=tag)
+    except drv.Inconclusive as e:
+        print("INCONCLUSIVE property=%s reason=%s" % (pid, e))
+        return 2
+    out = os.path.join(drv.CACHE, "run", "replay-%d.json" % os.getpid())
+    os.makedirs(os.path.dirname(out), exist_ok=True)
+    cmd = list(cmd)
+    if "--out" in cmd:
+        cmd[cmd.index("--out") + 1] = out
+    for key in ("--tmp", "--work"):
+        if key in cmd:
+            d = os.path.join(drv.CACHE, "run", "replay-tmp-%d" % os.getpid())
+            os.makedirs(d, exist_ok=True)
+            cmd[cmd.index(key) + 1] = d
+    cwd = drv.HARNESS if exe == "cargo" else None
+    p = subprocess.run(cmd, stdout=subprocess.PIPE, stderr=subprocess.PIPE, text=True, env=drv.env_offline(), cwd=cwd)
+    try:
+        rep = json.load(open(out))
+    except Exception:
+        print("INCONCLUSIVE property=%s reason=replay produced no report (exit %s): %s" % (pid, p.returncode, p.stderr[-400:]))
+        return 2
+    same = [v for v in rep.get("violations", []) if v.get("signature") == rp.get("signature")]
+    other = [v for v in rep.get("violations", []) if v.get("signature") != rp.get("signature")]
+    for v in (same + other)[:6]:
+        print("  %s: %s" % (v.get("signature"), str(v.get("message"))[:400]))
+    if same or other:
         print("VIOLATION property=%s replay=%s" % (pid, path))
-    return p.returncode
+        return 1
+    print("replay of %s: the recorded signature %s does not occur on the current tree" % (path, rp.get("signature")))
+    return 0
 
 
 # ----------------------------------------------------------------------------- C12
@@ -141,7 +191,7 @@ def c12(spec, tier, seed, merged, drv, params):
         if rep is None:
             merged.inconclusive.append("%s: %s" % (leg, note))
             continue
-        merged.add(rep, leg)
+        merged.add(rep, leg, cmd=cmds[len(merged.legs) * 0 + meta.index((fs, m))][0])
     merged.legs.append("sub-monitors x %d feature sets" % len(binaries))
     # probe transcripts
     compared = 0
@@ -205,7 +255,7 @@ def web(pid, spec, tier, seed, merged, drv, params):
         if rep is None:
             merged.inconclusive.append("websim shard %d: %s" % (sh, note))
         else:
-            merged.add(rep, "main")
+            merged.add(rep, "main", cmd=cmds[sh][0])
     merged.legs.append("websim x %d servers" % shards)
     shutil.rmtree(tmp, ignore_errors=True)
 
@@ -258,7 +308,7 @@ def sanitizer_leg(drv, merged, kind, sub, seed, shards, cases, extra=None, timeo
         os.chdir(cwd)
     for sh, (rep, rc, note) in enumerate(res):
         if rep is not None:
-            merged.add(rep, leg)
+            merged.add(rep, leg, cmd=cmds[sh][0])
             continue
         hit = None
         for mark, sig in SANITIZER_MARKS:
